@@ -184,3 +184,43 @@ func H_C07_every_nesting_compares_leaves() {
 	verifAssert(lr == want && rl == want, "Equals is exactly typed structural equality at every nesting (nested containers compared recursively by value)")
 	verifReach("end")
 }
+
+// The same element occupying several positions of one operand (NewListOf, the same container added twice,
+// runs of nil) while the other operand is built independently: every position is compared.
+func H_C07_repeated_elements() {
+	x, y, z := nondetInt(), nondetInt(), nondetInt()
+	c := NewList(x)
+	var a List
+	switch nondetIntRange(0, 3) {
+	case 0:
+		a = NewListOf(x, 3)
+	case 1:
+		a = NewList(c, c, c)
+	case 2:
+		a = NewList(nil, nil, nil)
+	default:
+		a = NewListOf(c, 2).Add(x)
+	}
+	var b List
+	switch nondetIntRange(0, 3) {
+	case 0:
+		b = NewList(x, y, z)
+	case 1:
+		b = NewList(NewList(x), NewList(y), NewList(z))
+	case 2:
+		b = NewList(nil, nil, nil)
+		if nondetIntRange(0, 1) == 1 {
+			b.Replace(nondetIntRange(1, 2), y)
+		}
+	default:
+		b = NewList(NewList(x), NewList(y), z)
+	}
+	sa, sb := hSnapAny(a), hSnapAny(b)
+	want := hRefEq(sa, sb)
+	ab, p1 := hEqualsAny(a, b)
+	ba, p2 := hEqualsAny(b, a)
+	verifAssert(!p1 && !p2, "Equals never panics")
+	verifAssert(ab == want, "Equals is exactly typed structural equality")
+	verifAssert(ba == want, "Equals is symmetric")
+	verifReach("end")
+}
